@@ -81,6 +81,19 @@ pub struct EpState {
     pub events: Vec<(u64, String)>,
 }
 
+impl EpState {
+    /// the peer aborts the connection now (used by scenarios that decide the abort point themselves)
+    pub fn force_reset(&mut self) {
+        self.rx_reset = true;
+        if let Some(w) = self.read_waker.take() {
+            w.wake();
+        }
+        if let Some(w) = self.write_waker.take() {
+            w.wake();
+        }
+    }
+}
+
 pub type Ep = Arc<Mutex<EpState>>;
 
 pub struct ScriptedStream {
@@ -197,6 +210,9 @@ pub struct World {
     /// let tokio-spawned background tasks of the code under test run after every step
     pub background: bool,
     pub log: Arc<Mutex<Vec<String>>>,
+    /// once set (by a scenario task), later choice points are still executed with the default choice but are not
+    /// branched on: used for a closing phase whose step count depends on real threads (blocking file I/O)
+    pub freeze: Arc<AtomicBool>,
 }
 
 impl World {
@@ -229,6 +245,7 @@ enum Action {
 
 #[derive(Clone, Debug)]
 pub struct Point {
+    pub frozen: bool,
     pub n: usize,
     pub chosen: usize,
     pub label: String,
@@ -316,7 +333,7 @@ async fn settle(background: bool) {
 
 /// Run one execution following `prefix`, then default choices. Err = replay divergence (machinery).
 async fn run_one<S>(build: &(dyn Fn(&mut World) -> S + Sync), prefix: &[usize], expect_labels: &[String], horizon: usize) -> Result<Exec<S>, String> {
-    let mut w = World { tasks: vec![], eps: vec![], seq: Arc::new(AtomicU64::new(0)), advances: vec![], max_advances: 0, background: false, log: Default::default() };
+    let mut w = World { tasks: vec![], eps: vec![], seq: Arc::new(AtomicU64::new(0)), advances: vec![], max_advances: 0, background: false, log: Default::default(), freeze: Default::default() };
     let user = build(&mut w);
     let mut points: Vec<Point> = vec![];
     let mut trace = vec![];
@@ -342,7 +359,7 @@ async fn run_one<S>(build: &(dyn Fn(&mut World) -> S + Sync), prefix: &[usize], 
             return Err(format!("replay divergence at point {}: expected {} got {}", points.len(), expect_labels[points.len()], opts[idx].1));
         }
         let (act, label) = opts[idx].clone();
-        points.push(Point { n: opts.len(), chosen: idx, label: label.clone(), labels: opts.iter().map(|o| o.1.clone()).collect() });
+        points.push(Point { frozen: w.freeze.load(Ordering::SeqCst), n: opts.len(), chosen: idx, label: label.clone(), labels: opts.iter().map(|o| o.1.clone()).collect() });
         trace.push(label);
         steps += 1;
         match act {
@@ -434,7 +451,7 @@ pub struct Stats {
 }
 
 fn new_rt() -> tokio::runtime::Runtime {
-    tokio::runtime::Builder::new_current_thread().enable_time().start_paused(true).build().unwrap()
+    tokio::runtime::Builder::new_current_thread().enable_all().start_paused(true).build().unwrap()
 }
 
 /// Execute one choice vector (with retry on divergence caused by un-owned nondeterminism such as HashMap order).
@@ -475,6 +492,9 @@ fn dfs<S>(build: &(dyn Fn(&mut World) -> S + Sync), check: &(dyn Fn(&Exec<S>) + 
         return;
     }
     for i in prefix.len()..x.points.len() {
+        if x.points[i].frozen {
+            break;
+        }
         for alt in 1..x.points[i].n {
             let mut p: Vec<usize> = x.points[..i].iter().map(|pt| pt.chosen).collect();
             p.push(alt);
@@ -500,6 +520,9 @@ pub fn explore<S>(cfg: &Config, build: &(dyn Fn(&mut World) -> S + Sync), check:
     }
     let mut work: Vec<(Vec<usize>, Vec<String>)> = vec![];
     for i in 0..root.points.len() {
+        if root.points[i].frozen {
+            break;
+        }
         for alt in 1..root.points[i].n {
             let mut p: Vec<usize> = root.points[..i].iter().map(|pt| pt.chosen).collect();
             p.push(alt);
